@@ -109,6 +109,18 @@ def check_config(db, rep, cfg, tier):
                                                                             sm.field(this, 'sys').fields['dimension'].value), fI['name'])
     for which in ('state', 'estate'):
         check_partition(rep, 'ini/%s/%s' % (which, cname), unit.loc(fI), layout_of(this, which, nx, nrhos, nscalars), sysreg, nx, nsun, nrhos, nscalars, fI['name'])
+    # the same shape reached by re-initialising an object that had another shape before: the layout is a function of the
+    # arguments of the last ini() only
+    other_shape = (nx + 1, 5 - nsun if nsun in (2, 3) else 2, nrhos + 1, 1 - min(nscalars, 1))
+    this2, hooks2, it2 = sm.new_solver(db, *other_shape)
+    try:
+        it2.call(fI, this2, [nx, nsun, nrhos, nscalars, Poly.var('tj')])
+        sysreg2 = this2.value.fields['system'].value.fields['p'].value.region
+        for which in ('state', 'estate'):
+            check_partition(rep, 'ini after ini(%s)/%s/%s' % (','.join(map(str, other_shape)), which, cname), unit.loc(fI),
+                            layout_of(this2, which, nx, nrhos, nscalars), sysreg2, nx, nsun, nrhos, nscalars, fI['name'])
+    except Thrown as t:
+        rep.fail('D.layout', 'ini after ini/' + cname, unit.loc(t.node), 're-initialisation with a new shape succeeds', 'throw: %s' % t.what, fI['name'])
     # ---- RHS for every switch setting
     n_rhs = 0
     for bits in itertools.product((0, 1), repeat=5):
